@@ -2,7 +2,11 @@
 EXTENDS WasmTyping
 S(p, r) == [p |-> p, r |-> r]
 SigPool == {S(<<>>, <<"i32">>), S(<<"i32">>, <<"i32">>), S(<<"i32", "i64">>, <<"i64">>), S(<<"f32", "f64">>, <<"f64">>),
-            S(<<"i64", "f32">>, <<"f32", "i32">>), S(<<"v128">>, <<"v128">>), S(<<"i32", "i32", "i32">>, <<>>)}
+            S(<<"i64", "f32">>, <<"f32", "i32">>), S(<<"v128">>, <<"v128">>), S(<<"i32", "i32", "i32">>, <<>>),
+            \* wide signatures: every integer argument register, more floats than float registers, stack-passed integers
+            S(<<"i32", "i64", "i32", "i64", "i64", "i32", "i64">>, <<"i32">>),
+            S(<<"f64", "f32", "f64", "f32", "f64", "f32", "f64", "f32", "f64">>, <<"i32">>),
+            S(<<"i64", "i32", "i64", "i32", "i64", "i32", "i64", "i32", "i64", "i32">>, <<"i64", "i32">>)}
 ScalarOps == {o \in OpSig : "v128" \notin {o.pop[i] : i \in 1..Len(o.pop)} \cup {o.push[i] : i \in 1..Len(o.push)}}
 VecOps == OpSig \ ScalarOps
 (* every memory instruction plus the little arithmetic that address computation and value production need *)
